@@ -128,3 +128,41 @@ def program_ref(prog, N, lib_gates=None):
 
 def overlaps(g1, g2):
     return bool(set(g1['qubits']) & set(g2['qubits']))
+
+
+# ---- operands produced by the library itself (views, slices, results of other calls) -------------------------------------------
+DERIVATIONS = ['inverse-inverse', 'slice-step2', 'slice-reversed', 'fancy-index', 'compose-identity', 'to_state-to_map', 'copy', 'polynomial-slice', 'stabilizers-view']
+
+
+def derived_operand(be, how, c, L, K):
+    """returns (library object, expected rows (L,K), kind). The object is not a fresh constructor array but the result of library calls
+    (possibly a non-contiguous view): in-place operations on it must still act on the value it denotes."""
+    Bk = B.backend(be)
+    sm = Bk.mods()['s']
+    if how == 'inverse-inverse':
+        return Bk.cmap(c.inverse()).inverse(), (c.L, c.K), 'map'
+    if how == 'compose-identity':
+        return Bk.cmap(c).compose(sm.identity_map(c.N)), (c.L, c.K), 'map'
+    if how == 'to_state-to_map':
+        return Bk.cmap(c).to_state().to_map(), (c.L, c.K), 'map'
+    if how == 'copy':
+        return Bk.cmap(c).copy(), (c.L, c.K), 'map'
+    if how == 'stabilizers-view':
+        S = Bk.state(c, 0)
+        TL, TK = B.tableau_rows(c)
+        return S.stabilizers, (TL[:c.N], TK[:c.N]), 'list'
+    lst = Bk.plist(L, K)
+    if how == 'slice-step2':
+        return lst[::2], (L[::2], K[::2]), 'list'
+    if how == 'slice-reversed':
+        if be == 'torch':
+            return lst[1:], (L[1:], K[1:]), 'list'
+        return lst[::-1], (L[::-1], K[::-1]), 'list'
+    if how == 'fancy-index':
+        idx = [j for j in range(len(K)) if j % 3 != 1]
+        arg = np.array(idx, dtype=int) if be == 'np' else B.torch_mods()['torch'].tensor(idx, dtype=B.torch_mods()['torch'].long)
+        return lst[arg], (L[idx], K[idx]), 'list'
+    if how == 'polynomial-slice':
+        P = Bk.poly(L, K, np.arange(1, len(K) + 1, dtype=float))
+        return P[1:], (L[1:], K[1:]), 'poly'
+    raise ValueError(how)
